@@ -208,6 +208,10 @@ def sha_leaves(d):
   out = {}
   for k, v in d.items():
     a = np.ascontiguousarray(v)
+    if a.dtype.kind == 'f' and a.size:
+      # -0.0 and +0.0 are the same number (the sign of a zero can depend on how
+      # XLA folded an expression for sharded vs. unsharded inputs)
+      a = a + np.zeros((), a.dtype)
     if a.dtype.kind == 'f' and a.size and np.isnan(a).any():
       # NaN sign/payload bits carry no meaning (and do not survive every
       # transport); hash a canonical NaN
